@@ -15,7 +15,8 @@ def storedForm (T : Nat) (a : Arr) (v : Elem) (c : Ctx) : Elem := (toStorable T 
 theorem get_refines (T : Nat) (hT : legalThreshold T = true) (a : Arr) (ctr : Nat) (h : ArrInv T a ctr) (i : Nat) :
     (i < a.toList.length → a.get i = .ok (a.toList.getD i default)) ∧
     (a.toList.length ≤ i → a.get i = .error .indexOutOfBounds) := by
-  sorry
+  obtain ⟨d, t, ty⟩ := a
+  exact get_gen hT d t true i h.shape
 
 theorem insert_refines (T : Nat) (hT : legalThreshold T = true) (a : Arr) (c : Ctx) (i : Nat) (v : Elem)
     (hv : ValueOk v) (h : ArrInv T a c.ctr) (hcount : a.count < maxArrayElementCount) :
@@ -24,7 +25,12 @@ theorem insert_refines (T : Nat) (hT : legalThreshold T = true) (a : Arr) (c : C
         a'.toList = a.toList.insertIdx i (storedForm T a v c) ∧
         a'.rootID = a.rootID ∧ a'.ty = a.ty) ∧
     (a.toList.length < i → a.insert T i v c = .error .indexOutOfBounds) := by
-  sorry
+  constructor
+  · intro hi
+    obtain ⟨a2, c2, heq, _, hl, hid, hty⟩ := arr_insert_ok hT a c i v hv h hcount hi
+    exact ⟨a2, c2, heq, hl, hid, hty⟩
+  · intro hi
+    exact arr_insert_err a c i v h (by omega) hi
 
 theorem set_refines (T : Nat) (hT : legalThreshold T = true) (a : Arr) (c : Ctx) (i : Nat) (v : Elem)
     (hv : ValueOk v) (h : ArrInv T a c.ctr) :
@@ -33,7 +39,12 @@ theorem set_refines (T : Nat) (hT : legalThreshold T = true) (a : Arr) (c : Ctx)
         a'.toList = a.toList.set i (storedForm T a v c) ∧
         a'.rootID = a.rootID ∧ a'.ty = a.ty) ∧
     (a.toList.length ≤ i → a.set T i v c = .error .indexOutOfBounds) := by
-  sorry
+  constructor
+  · intro hi
+    obtain ⟨a2, c2, heq, _, hl, hid, hty⟩ := arr_set_ok hT a c i v hv h hi
+    exact ⟨a2, c2, heq, hl, hid, hty⟩
+  · intro hi
+    exact arr_set_err a c i v h hi
 
 theorem remove_refines (T : Nat) (hT : legalThreshold T = true) (a : Arr) (c : Ctx) (i : Nat)
     (h : ArrInv T a c.ctr) :
@@ -42,28 +53,36 @@ theorem remove_refines (T : Nat) (hT : legalThreshold T = true) (a : Arr) (c : C
         a'.toList = a.toList.eraseIdx i ∧
         a'.rootID = a.rootID ∧ a'.ty = a.ty) ∧
     (a.toList.length ≤ i → a.remove T i c = .error .indexOutOfBounds) := by
-  sorry
+  constructor
+  · intro hi
+    obtain ⟨a2, c2, heq, _, hl, hid, hty⟩ := arr_remove_ok hT a c i h hi
+    exact ⟨a2, c2, heq, hl, hid, hty⟩
+  · intro hi
+    exact arr_remove_err a c i h hi
 
 theorem pop_refines (T : Nat) (hT : legalThreshold T = true) (a : Arr) (c : Ctx) (h : ArrInv T a c.ctr) :
     (a.popIterate c).1 = a.toList.reverse ∧
     (a.popIterate c).2.1.toList = [] ∧
     (a.popIterate c).2.1.rootID = a.rootID ∧ (a.popIterate c).2.1.ty = a.ty := by
-  sorry
+  exact arr_popIterate_refines a c
 
 theorem count_refines (T : Nat) (a : Arr) (ctr : Nat) (h : ArrInv T a ctr) :
     a.count = a.toList.length := by
-  sorry
+  obtain ⟨d, t, ty⟩ := a
+  exact h.shape.count_eq_length
 
 theorem setType_refines (T : Nat) (a : Arr) (c : Ctx) (ty : Nat) :
     (a.setType ty c).1.toList = a.toList ∧ (a.setType ty c).1.ty = ty ∧
     (a.setType ty c).1.rootID = a.rootID := by
-  sorry
+  exact ⟨rfl, rfl, rfl⟩
 
 /-- The two routing branches of `childSlabIndexInfo` (linear scan / binary search) agree on every
     valid cumulative-count table, so the answer does not depend on the number of children. -/
 theorem route_linear_eq_binary (cs : List Nat) (index : Nat)
     (hmono : cs.Pairwise (· < ·)) (hin : ∃ last ∈ cs.getLast?, index < last) :
     MetaSlab.scanLinear index cs 0 = MetaSlab.scanBinary index cs 0 cs.length (cs.length + 1) := by
-  sorry
+  have hb := MetaSlab.scanBinary_spec index cs hmono hin (cs.length + 1) 0 cs.length
+    (Nat.zero_le _) (Nat.le_refl _) (by omega) (by intro j hj; omega) (by intro j h1 h2; omega)
+  rw [MetaSlab.scanLinear_of_ans index cs 0 _ hb]; omega
 
 end Atree.C01
